@@ -35,6 +35,7 @@ type node struct {
 	dir  bool
 	data []byte
 	perm fs.FileMode
+	fifo bool // a named pipe / /dev/fd entry: stat reports size 0 and ModeNamedPipe, reads deliver the bytes
 }
 
 // Fault kinds of the disk.
@@ -88,6 +89,13 @@ func (d *Disk) Put(p string, data []byte) {
 }
 
 func (d *Disk) Remove(p string) { delete(d.nodes, clean(p)) }
+
+// PutPipe stores content that is served like a named pipe with a writer attached: stat says
+// size 0 / ModeNamedPipe, reads deliver the bytes (in whatever chunks the read mode decides).
+func (d *Disk) PutPipe(p string, data []byte) {
+	d.Put(p, data)
+	d.nodes[clean(p)].fifo = true
+}
 
 // Mkdir creates one directory (parent must exist).
 func (d *Disk) Mkdir(p string) error {
@@ -180,10 +188,18 @@ type SimInfo struct {
 }
 
 func (i SimInfo) Name() string { return i.name }
-func (i SimInfo) Size() int64  { return int64(len(i.n.data)) }
+func (i SimInfo) Size() int64 {
+	if i.n.fifo {
+		return 0 // stat(2) on a pipe
+	}
+	return int64(len(i.n.data))
+}
 func (i SimInfo) Mode() fs.FileMode {
 	if i.n.dir {
 		return fs.ModeDir | i.n.perm
+	}
+	if i.n.fifo {
+		return fs.ModeNamedPipe | i.n.perm
 	}
 	return i.n.perm
 }
